@@ -356,3 +356,66 @@ func RenderLog(cs []SynthCommit) string {
 	}
 	return sb.String()
 }
+
+// SynthCrowd draws a history in which one file is touched by K = 100..130 distinct authors, one revision each
+// (K revisions, K authors), while 1-3 other files are revised K+1 .. K+3 times by a single author each, and a few more
+// files are touched now and then. The commits of the different files are interleaved; dates are non-decreasing.
+func SynthCrowd(r *run.Rand) []SynthCommit {
+	k := r.Range(100, 130)
+	type job struct {
+		path, author string
+		left         int
+		crowd        bool
+	}
+	jobs := []*job{{path: join(r.Pick(synthDirs), "everyone.go"), left: k, crowd: true}}
+	nSolo := r.Range(1, 3)
+	for i := 0; i < nSolo; i++ {
+		d := 1
+		if r.Chance(1, 2) {
+			d = r.Range(1, 3)
+		}
+		jobs = append(jobs, &job{path: join(r.Pick(synthDirs), fmt.Sprintf("solo%d.go", i+1)), author: synthAuthors[r.Intn(len(synthAuthors))], left: k + d})
+	}
+	for i, n := 0, r.Range(0, 4); i < n; i++ {
+		jobs = append(jobs, &job{path: join(r.Pick(synthDirs), fmt.Sprintf("%s%d.go", r.Pick(words), i+1)), author: synthAuthors[r.Intn(len(synthAuthors))], left: r.Range(1, 40)})
+	}
+	created := map[string]bool{}
+	crowdNo := 0
+	day := r.Range(0, 200)
+	var out []SynthCommit
+	for i := 0; ; i++ {
+		var open []*job
+		for _, j := range jobs {
+			if j.left > 0 {
+				open = append(open, j)
+			}
+		}
+		if len(open) == 0 {
+			break
+		}
+		j := open[r.Intn(len(open))]
+		j.left--
+		author := j.author
+		if j.crowd {
+			crowdNo++
+			author = fmt.Sprintf("contributor %03d", crowdNo)
+		}
+		if r.Chance(1, 3) {
+			day++
+		}
+		c := SynthCommit{Rev: fmt.Sprintf("%07x", 0x2000000+i*13+r.Intn(12)), Author: author, Date: shortDate(1546300800+int64(day)*86400, "+0000")}
+		if r.Chance(1, 2) {
+			c.Message = r.Pick(ccTypes) + ": touch " + r.Pick(words)
+		} else {
+			c.Message = "update " + r.Pick(words)
+		}
+		ch := SynthChange{Added: r.Range(0, 9), Deleted: r.Range(0, 9), File: j.path}
+		if !created[j.path] {
+			created[j.path] = true
+			ch.Mode, ch.Deleted = "create", 0
+		}
+		c.Changes = []SynthChange{ch}
+		out = append(out, c)
+	}
+	return out
+}
